@@ -679,7 +679,7 @@ class CMakeTraceParser:
             if mode in {'INTERFACE', 'LINK_INTERFACE_LIBRARIES', 'PUBLIC', 'LINK_PUBLIC'}:
                 interface += i.split(';')
 
-            if mode in {'PUBLIC', 'PRIVATE', 'LINK_PRIVATE'}:
+            if mode in {'PUBLIC', 'PRIVATE', 'LINK_PUBLIC', 'LINK_PRIVATE'}:
                 private += i.split(';')
 
         if paths:
